@@ -9,6 +9,7 @@ import (
 	"sync/atomic"
 
 	"github.com/jrhy/mast"
+	"verifharness/env"
 	"verifharness/explore"
 	"verifharness/ref"
 	"verifharness/report"
@@ -310,6 +311,12 @@ func allVersions(cfg *world.Config) ([]*version, error) {
 			return
 		}
 		v := &version{w: w, t: w.Trees[0], root: r.Root, link: linkOf(r.Root), c: w.ReadContents(w.Trees[0])}
+		if h, ok := c14StoreHook.Load(cfg.Name); ok {
+			for _, n := range w.Store.Names() {
+				b, _ := w.Store.Has(n)
+				h.(func(env.Call))(env.Call{Kind: "store", Name: n, Bytes: b})
+			}
+		}
 		w.Store.StopLog()
 		v.reach, err = codecFor(cfg).Reach(cfg.KS, storeGet(w.Store), v.link)
 		if err != nil {
@@ -377,7 +384,9 @@ func checkNodeDiff(cfg *world.Config, o, n *version) []explore.Finding {
 			added[e.name]++
 		}
 	}
-	det := func() string { return fmt.Sprintf("old %v (h%d) new %v (h%d): events %v", o.c, o.root.Height, n.c, n.root.Height, evs) }
+	det := func() string {
+		return fmt.Sprintf("old %v (h%d) new %v (h%d): events %v", o.c, o.root.Height, n.c, n.root.Height, evs)
+	}
 	for _, cnt := range added {
 		if cnt > 1 {
 			out = append(out, explore.Finding{Sig: "C07|added-twice|" + cls, What: "a node name was reported as added more than once", Detail: det()})
